@@ -87,6 +87,8 @@ def explore(cfg, rep, identity_mode, on_frame):
     ex = Explorer(base, timeout_ms=60000, max_paths=cfg.get("max_paths", 60000))
 
     def score_stub(f, g):
+        if getattr(f, "bad", False) or getattr(g, "bad", False):
+            return XF.of(float("nan"))  # a detection whose pose is entirely missing scores NaN against everything (nan_pose configurations)
         key = (f.animal, f.frame, g.animal, g.frame)
         v = SC.get(key)
         if v is None:
@@ -115,7 +117,10 @@ def explore(cfg, rep, identity_mode, on_frame):
                     if sym_inst_scores:
                         ex.add_side(z3.Real(f"is_{f}_{a}") >= 0)
                         ex.add_side(z3.Real(f"is_{f}_{a}") <= 1)
-                    dets.append(Det(a, f, sc))
+                    d_ = Det(a, f, sc)
+                    if cfg.get("nan_pose"):
+                        d_.bad = ex.decide(z3.Bool(f"bad_{f}_{a}"))
+                    dets.append(d_)
             if identity_mode:
                 pre = on_frame(ex, hist, dets, None, "pre")
                 if pre == "skip":
@@ -145,7 +150,7 @@ def history_of(ex, env, K, F, sym_inst_scores):
         fr = []
         for a in order:
             if env[f"pres_{t}_{a}"]:
-                fr.append({"animal": a, "score": float(env[f"is_{t}_{a}"]) if sym_inst_scores else 0.9})
+                fr.append({"animal": a, "score": float(env[f"is_{t}_{a}"]) if sym_inst_scores else 0.9, "bad": bool(env[f"bad_{t}_{a}"])})
         frames.append(fr)
     return frames
 
@@ -160,14 +165,14 @@ def replay_history(cfg, inputs, check):
     table = {tuple(k.split(",")): v for k, v in inputs.get("scores", {}).items()}
 
     class RDet:
-        def __init__(self, animal, frame, score):
-            self.animal, self.frame, self.score = animal, frame, score
+        def __init__(self, animal, frame, score, bad=False):
+            self.animal, self.frame, self.score, self.bad = animal, frame, score, bad
             self.track = None
             self.tracking_score = None
 
         def numpy(self):
             base = np.array([[10.0, 10.0], [14.0, 18.0], [22.0, 12.0]]) + 100.0 * self.animal + 0.3 * self.frame
-            return base
+            return np.full_like(base, np.nan) if self.bad else base
 
     outcomes = []
     for attempt in ("real-oks", "pinned-scores"):
@@ -175,17 +180,19 @@ def replay_history(cfg, inputs, check):
                                     track_matching_method=cfg["matching"], window_size=cfg["window"], instance_score_threshold=cfg.get("thr", 0.0))
         t._track_objects = {}
         if attempt == "pinned-scores":
-            if not table:
+            if not table and not any(d.get("bad") for fr in frames for d in fr):
                 break
             t._feature_methods = {"keypoints": lambda d: d}
 
             def sc(f, g, table=table):
+                if f.bad or g.bad:
+                    return float("nan")
                 return float(table.get((str(f.animal), str(f.frame), str(g.animal), str(g.frame)), 0.5 if f.animal != g.animal else 0.8))
             t._scoring_functions = {"oks": sc}
         hist = []
         verdict = None
         for fi, fr in enumerate(frames):
-            dets = [RDet(d["animal"], fi, d["score"]) for d in fr]
+            dets = [RDet(d["animal"], fi, d["score"], d.get("bad", False)) for d in fr]
             try:
                 out = t.track(list(dets), fi)
             except Exception as e:
